@@ -144,7 +144,7 @@ func (c *Ctx) rulesC01(a *coreAnchors, la *LockAnalysis) {
 		fk := funcKey(w.Fn)
 		byFn[fk]++
 		key := fmt.Sprintf("%s %s%s", fk, w.Kind, nth(byFn[fk]-1))
-		if w.Fn == a.setActive {
+		if w.Fn == a.setActive || c.hostedBy(w.Fn, a.setActive) {
 			continue // checked below with shape
 		}
 		why, ok := clockWriterTable[fk]
@@ -153,13 +153,20 @@ func (c *Ctx) rulesC01(a *coreAnchors, la *LockAnalysis) {
 		}
 		c.check(ok, "C01.w", key, w.Instr.Pos(), "writer of Machine.clock outside setActiveStates: "+fk+" "+why)
 	}
-	ticks := clockTicksIn(a.setActive, a.fClock)
+	// ticks of setActiveStates and of the private helpers it was split into;
+	// parameters of such helpers stand for the values passed at their only
+	// call site
+	var ticks []tickStore
+	for _, hf := range c.hostedFns(a.setActive) {
+		ticks = append(ticks, clockTicksIn(hf, a.fClock)...)
+	}
+	arg := func(v ssa.Value) ssa.Value { return c.hostedArg(v, a.setActive) }
 	n1, n2 := 0, 0
 	for i, t := range ticks {
 		key := fmt.Sprintf("%s tick%s", funcKey(a.setActive), nth(i))
 		good := t.step == 1 || t.step == 2
 		c.check(good, "C01.w", key, t.ins.Pos(), fmt.Sprintf("clock write must be clock[k] = clock[k] + {1,2}; found %s[%s] <- %s", render(t.ins.Map), render(t.ins.Key), render(t.ins.Value)))
-		gs := guardsOf(t.ins.Block())
+		gs := c.guardsHosted(t.ins, a.setActive)
 		switch t.step {
 		case 1:
 			n1++
@@ -170,19 +177,28 @@ func (c *Ctx) rulesC01(a *coreAnchors, la *LockAnalysis) {
 			for _, g := range gs {
 				v, neg := stripNot(g.Cond)
 				if call, ok := v.(*ssa.Call); ok && calleeName(&call.Call) == "Contains" && (g.Pol != neg) == false {
-					if len(call.Call.Args) == 2 && (loadOfField(call.Call.Args[0]) == a.fActive) {
+					if len(call.Call.Args) == 2 && (loadOfField(arg(call.Call.Args[0])) == a.fActive) {
 						notPrev = true
 					}
 				}
 			}
 			removed := false
-			valueTree(t.key, 6, func(v ssa.Value) {
-				if call, ok := v.(*ssa.Call); ok && calleeName(&call.Call) == "StatesDiff" && len(call.Call.Args) == 2 {
-					if loadOfField(call.Call.Args[0]) == a.fActive {
-						removed = true
+			var look func(v ssa.Value, d int)
+			look = func(v ssa.Value, d int) {
+				valueTree(v, 6, func(v ssa.Value) {
+					if call, ok := v.(*ssa.Call); ok && calleeName(&call.Call) == "StatesDiff" && len(call.Call.Args) == 2 {
+						if loadOfField(arg(call.Call.Args[0])) == a.fActive {
+							removed = true
+						}
 					}
-				}
-			})
+					if p, ok := v.(*ssa.Parameter); ok && d < 3 {
+						if av := arg(p); av != v {
+							look(av, d+1)
+						}
+					}
+				})
+			}
+			look(t.key, 0)
 			c.check(notPrev || removed, "C01.p", key+" parity-flip", t.ins.Pos(),
 				fmt.Sprintf("+1 tick must apply to a state that was not active before (guard !Contains(previous active, k)) or that is in StatesDiff(previous active, target); guards=%v key=%s", guardStrings(gs), render(t.key)))
 		case 2:
@@ -195,10 +211,10 @@ func (c *Ctx) rulesC01(a *coreAnchors, la *LockAnalysis) {
 					multi = multi || pol
 				}
 				if call, ok := v.(*ssa.Call); ok && calleeName(&call.Call) == "Contains" && len(call.Call.Args) == 2 {
-					if loadOfField(call.Call.Args[0]) == a.fActive && pol {
+					if loadOfField(arg(call.Call.Args[0])) == a.fActive && pol {
 						wasActive = true
 					}
-					if p, ok := call.Call.Args[0].(*ssa.Parameter); ok && p == a.setActive.Params[1] && pol {
+					if p, ok := arg(call.Call.Args[0]).(*ssa.Parameter); ok && p == a.setActive.Params[1] && pol {
 						called = true
 					}
 				}
